@@ -1136,6 +1136,7 @@ type Step struct {
 	AskA  int      `json:"ask_a"`         // how many times VM A asks for the text after this step
 	AskB  int      `json:"ask_b"`
 	Split bool     `json:"split,omitempty"` // Parse + RunAfterParsed instead of Run
+	Rerun int      `json:"rerun,omitempty"` // with Split: RunAfterParsed is called 1+Rerun times on the parsed program (A asks for the text between the runs when AskA > 0)
 	Set   *VarDef  `json:"set,omitempty"`   // variable rebound (through the API, on both VMs) before the step
 	Src   string   `json:"src,omitempty"`
 }
@@ -1184,6 +1185,14 @@ func checkSession(c *Session, s *rt.Section) (*rt.Failure, []string) {
 			if st.Split {
 				if err := vm.Parse(src); err != nil {
 					return err
+				}
+				for k := 0; k < st.Rerun; k++ {
+					if err := vm.RunAfterParsed(); err != nil {
+						return err
+					}
+					if vm == a && st.AskA > 0 {
+						_ = vm.GetDetailText()
+					}
 				}
 				return vm.RunAfterParsed()
 			}
@@ -1413,6 +1422,9 @@ func TestProp(t *testing.T) {
 				}
 			}
 			st.Split = pct(t, 30, "split")
+			if st.Split && pct(t, 40, "rerun") {
+				st.Rerun = 1 + rapid.IntRange(0, 2).Draw(t, "reruns")
+			}
 			st.AskA = pickOf(t, []int{0, 0, 1, 1, 1, 2, 3}, "askA")
 			st.AskB = pickOf(t, []int{0, 0, 0, 1, 2}, "askB")
 			if (st.AskA > 0) != (st.AskB > 0) && st.Raw == "" {
